@@ -2,7 +2,6 @@ CONSTANT NP = 2
 CONSTANT NC = 2
 CONSTANT NT = 2
 CONSTANT Kinds = {0, 2, 3}
-CONSTANT GcMode = "keep"
 INIT Init
 NEXT GenNext
 VIEW View
